@@ -244,6 +244,7 @@ class Emitter:
         self.launch_id = 0
         self.carried = []  # stack of {p, q}: loop-carried (non-state) values of enclosing FORI loops
         self.results = []  # results of the most recent FORI / IFR statement: {rp, rq}
+        self.index_atoms = set()
 
     def fresh(self, p="v"):
         self.n += 1
@@ -252,6 +253,7 @@ class Emitter:
     def emit(self, prog):
         body = []
         self._seq(prog, body, "  ", [])
+        body = [f"  %{a} = arith.index_cast %{a[1]} : {self.ft} to index" for a in sorted(self.index_atoms)] + body
         args = [f"%x : {self.ft}", f"%y : {self.ft}"]
         args += [f"%c{k} : i1" for k in range(self.nif)]
         for k in range(self.nfor):
@@ -264,6 +266,10 @@ class Emitter:
 
     def _atom(self, a, ivs):
         if a in ("x", "y"):
+            return f"%{a}"
+        if a in ("nx", "ny"):
+            # index-typed copies of the arguments (a setup may mix i32 and index values; the lowering casts the latter)
+            self.index_atoms.add(a)
             return f"%{a}"
         if a in ("p", "q"):
             return self.carried[-1][a]
@@ -288,7 +294,7 @@ class Emitter:
                 _, acc, vals = s
                 fields = self.accs[acc]["fields"]
                 st, tok = self.fresh("s"), self.fresh("t")
-                params = ", ".join(f'"{f}" = {self._atom(v, ivs)} : {self.ft}' for f, v in zip(fields, vals))
+                params = ", ".join(f'"{f}" = {self._atom(v, ivs)} : {"index" if v in ("nx", "ny") else self.ft}' for f, v in zip(fields, vals))
                 out.append(f'{ind}{st} = accfg.setup "{acc}" to ({params}) : !accfg.state<"{acc}">')
                 self.launch_id += 1
                 lnames, lvals, ltys = [], [], []
